@@ -315,6 +315,11 @@ def m_sym_param(ctx, cty, a):
     return int(ps[a[0]]) if a[0] < len(ps) else 0
 
 
+@model("verif_harness::sym::scratch_dir", "sym::scratch_dir")
+def m_sym_scratch_dir(ctx, cty, a):
+    return StringObj(SStr.lit("/vfs/run"))
+
+
 @model("verif_harness::sym::set_env", "sym::set_env")
 def m_sym_set_env(ctx, cty, a):
     k = as_sstr(a[0]).concrete()
